@@ -26,5 +26,7 @@ func init() {
 		Mutant{"C18", "c18-close-drops-endstream", "zio/zngio/writer.go", "Writer.Close",
 			"err := w.EndStream()", "w.EndStream()\n\tvar err error",
 			"C18-E1", "(*zio/zngio.Writer).Close -> (*zio/zngio.Writer).EndStream"},
+		Mutant{"C18", "c18-zson-close-forgets-sink", "zio/zsonio/writer.go", "Writer.Close",
+			"return w.writer.Close()", "return nil", "C18-E5", "zio/zsonio.Writer.Close"},
 	)
 }
